@@ -21,6 +21,9 @@ def configs(tier):
     for kind in ("trap:light:eq", "trap:eq"):
         out.append(dict(kind=kind, n=3, cfg=dict(CFG, nonnode=False), hidden=False, d=1, assertions=0, judge="c16", snap=True))
         out.append(dict(kind=kind, n=4, cfg=dict(CFG, nonnode=False, extras=False), hidden=False, d=0, assertions=0, judge="c16", snap=True))
+    # hooks put on the class only after nodes of it have been linked once
+    for kind in ("late", "late:light", "insthook"):
+        out.append(dict(kind=kind, n=3, cfg=dict(CFG), hidden=False, d=1, assertions=0, judge="c16", snap=True))
     if tier == "thorough":
         for kind in ("mixin", "light"):
             out.append(dict(kind=kind, n=5, cfg=dict(CFG, extras=False, L=3), hidden=False, d=0, assertions=0,
